@@ -93,7 +93,7 @@ def job_roundtrip_rev(N, T):
     """converse: every non-saturated instant returned for a UNIQUE/REPEATED civil second displays that civil second"""
     ex, NM = new_ex()
     def h(ex, st):
-        z = tz.build_zone(ex, st, N, T)
+        z = tz.build_zone(ex, st, N, T, spacing=False)     # C02's spacing premise is not needed here
         cs = ex.input("cs", 128, tz.ORD_LO, tz.ORD_HI)
         pcs = put_cs(ex, st, cs)
         cl = ex.new_obj(st, 32, "civil_lookup"); al = ex.new_obj(st, 32, "absolute_lookup")
@@ -114,7 +114,7 @@ def job_roundtrip_rev(N, T):
 def job_order(N, T):
     ex, NM = new_ex()
     def h(ex, st):
-        z = tz.build_zone(ex, st, N, T)
+        z = tz.build_zone(ex, st, N, T, spacing=False)     # C02's spacing premise is not needed here
         cs1 = ex.input("cs1", 128, tz.ORD_LO, tz.ORD_HI); cs2 = ex.input("cs2", 128, tz.ORD_LO, tz.ORD_HI)
         ex.assume(st, lt(cs1, cs2))
         p1 = put_cs(ex, st, cs1, "cs1"); p2 = put_cs(ex, st, cs2, "cs2")
@@ -139,7 +139,7 @@ def job_transition(N, T, which):
     ex, NM = new_ex()
     BIG = -(1 << 59)
     def h(ex, st):
-        z = tz.build_zone(ex, st, N, T)
+        z = tz.build_zone(ex, st, N, T, spacing=False)     # C02's spacing premise is not needed here
         # an entry at -2^59 is the sentinel Load adds, or the 'big bang' entry of pre-2018 zic output: never reported, whatever its type
         t = ex.input("t")
         tp = ex.new_obj(st, 8, "tp"); ex.store_raw(st, tp, 8, t)
@@ -174,7 +174,7 @@ def job_saturation(N, T):
     """the last representable civil second of the zone converts exactly; one second later saturates to max(); same at min()"""
     ex, NM = new_ex()
     def h(ex, st):
-        z = tz.build_zone(ex, st, N, T)
+        z = tz.build_zone(ex, st, N, T, spacing=False)     # C02's spacing premise is not needed here
         side = ex.input("side", 8, 0, 1); d = ex.input("d", 8, 0, 1)
         offl = z.pre_off[N]; off0 = z.pre_off[0]
         cs = ite(eq(side, 0), add(add(I64MAX, offl), d), sub(add(I64MIN, off0), d))
@@ -259,7 +259,7 @@ def run_property(prop, tier, jobs, kinds, text, bounds, outside=(), extra_assump
     rep.bounds = list(bounds)
     rep.outside = [EXT_COVERED if ext else EXT_OUTSIDE, "tables larger than the stated N x T"] + list(outside)
     rep.assumptions = ["WF(table): what TimeZoneInfo::Load establishes (sorted times, front < 0 <= back, offsets within +-24h, civil_sec/prev_civil_sec/civil_max/civil_min consistent)",
-                       "zic-shaped premise: |transition time| <= 2^59; C02's premise: consecutive offset changes are farther apart than the sum of their sizes",
+                       "zic-shaped premise: |transition time| <= 2^59 (established by Load since fix e7109df); C02's premise (consecutive offset changes farther apart than the sum of their sizes) only in the civil -> instant jobs (MakeTime, round trip): BreakTime, next/prev, order, saturation and the converse round trip hold for every table Load accepts",
                        "civil_second default construction, +, - replaced by their ordinal contracts (proved on the real code by C04/C05); relational operators run from their IR",
                        "std::string::operator[] on abbreviations_ modelled as data()+i with a bounds obligation"] + list(extra_assumptions)
     if ext:
